@@ -79,7 +79,7 @@
       one `-` / `+` line, `checkDiffElement`).
 -/
 import JdProofs.V1ListDiffPatch
-import JdProofs.PathSites
+import JdProofs.PathSitesV1
 import JdProofs.V1MergeRender
 import JdProofs.V1SetDiffPatch
 import JdProofs.V1KeysDiffPatchF
